@@ -205,8 +205,11 @@ class Group:
             type_:  determinant type
         """
         # first check if we already have a determinant with this label
+        # (the backbone NH and CO groups of a residue share their label)
         for own_determinant in self.determinants[type_]:
-            if own_determinant.group == new_determinant.group:
+            if (own_determinant.group == new_determinant.group
+                    and own_determinant.group.atom.name
+                    == new_determinant.group.atom.name):
                 # if so, add the value
                 own_determinant.value += new_determinant.value
                 return
@@ -222,8 +225,11 @@ class Group:
             type_:  determinant type
         """
         # first check if we already have a determinant with this label
+        # (the backbone NH and CO groups of a residue share their label)
         for own_determinant in self.determinants[type_]:
-            if own_determinant.group == new_determinant.group:
+            if (own_determinant.group == new_determinant.group
+                    and own_determinant.group.atom.name
+                    == new_determinant.group.atom.name):
                 # if so, overwrite the value
                 own_determinant.value = new_determinant.value
                 return
